@@ -11,6 +11,7 @@ import json
 import math
 
 from .env import ABSENT
+from .env import is_synced as env_is_synced
 
 # --------------------------------------------------------------------------------------
 # Plain data helpers
@@ -111,11 +112,14 @@ def path_ok(content, path, kinds):
 
 def to_plain(x):
     """Convert what the implementation returned into plain data, without refreshing it."""
-    tb = getattr(x, "_to_base", None)
-    if tb is not None and callable(tb):
-        return to_plain(tb())
-    if hasattr(x, "_load") and callable(x):  # synced node without _to_base: public conversion
-        return to_plain(x())
+    if env_is_synced(x):
+        tb = getattr(x, "_to_base", None)  # non-loading conversion when the implementation has one
+        if tb is not None and callable(tb):
+            try:
+                return to_plain(tb())
+            except TypeError:
+                pass
+        return to_plain(x())  # public conversion
     if isinstance(x, dict):
         return {k: to_plain(v) for k, v in x.items()}
     if isinstance(x, list):
